@@ -608,6 +608,14 @@ func (f *Frame) evalCall(e *CExpr, env *Env) *Val {
 		nenv := *env
 		nenv.State = env.Old
 		return f.evalC(e.Args[0], &nenv)
+	case "atloop":
+		// value of the expression in the heap state at the entry of the current loop
+		if env.Loop == nil || env.Loop.pre == nil {
+			f.E.fail("atloop() used outside a loop invariant")
+		}
+		nenv := *env
+		nenv.State = env.Loop.pre
+		return f.evalC(e.Args[0], &nenv)
 	case "has":
 		m, k := arg(0), arg(1)
 		mk := f.mapInfo(m.T)
